@@ -61,7 +61,7 @@ class Device:
         # code.  What follows differs from part to part and may well contain another density letter ('3C4B': a 16 KiB part).
         suffix = schedule.get('serial_suffix', 'J')
         assert len(suffix) % 2 == 1
-        self.serial_number = ('3C%s%s' % (SIZE_LETTER[page_count], suffix)).encode('ascii').decode('utf-16-le')
+        self.serial_number = ('3C%s%s' % (schedule.get('density_letter', SIZE_LETTER[page_count]), suffix)).encode('ascii').decode('utf-16-le')
         self.pending_status = 0
 
     # -- helpers ---------------------------------------------------------------------------------------
